@@ -30,7 +30,7 @@ REPLACEMENTS = ["longer-body", "minimal-body", "other-content", "other-backbone"
 
 def bounds(tier):
     return dict(enzymes=[n for n, _ in gen.enzymes()] if tier == "thorough" else ["BsaI", "BbsI", "BspQI", "BspD6I", "FokI", "BccI"],
-                k=[1, 2, 3], replacements=REPLACEMENTS,
+                k=[1, 2, 3], replacements=REPLACEMENTS, replacement_containers=gen.CONTAINERS,
                 registry_pairs="all same-overhang pairs of valid module plasmids of each registry (k=1, generated vector)",
                 canonical_chains="first simple chain from each registry vector (search over module types), every position x every same-type plasmid")
 
